@@ -40,6 +40,9 @@ def rhs_matrix(ode, max_tries: int | None = None) -> sympy.Matrix:
         If the maximum number of tries is reached
     """
     intermediates = {x.symbol: x.expr for x in ode.intermediates}
+    # An intermediate may read the derivative of a state (rate = 2 * dx_dt), so the
+    # state derivatives are definitions to expand as well
+    intermediates.update({x.symbol: x.expr for x in ode.state_derivatives})
     # Expand the intermediates themselves first, dependencies before dependents, so that
     # a single substitution into the right hand side suffices. Substituting repeatedly into
     # the half-expanded matrix grows with the dependency depth and can exhaust the
